@@ -398,6 +398,31 @@ def run(ctx):
             elif not wf or not rf:
                 ok, detail = None, "strftime / strptime pair not found"
         ctx.ob("C11.e", writer, "tag %s" % t, ok, detail)
+        if t == "np_array" and "np_list" in kv:
+            # dates in arrays: the reader rebuilds them with np.datetime64(x, <unit>); tolist() of the array itself is
+            # self-describing (ns -> integer ns, coarser resolutions -> date / datetime objects).  Any explicit conversion on
+            # the way to the list has to go to exactly the unit the reader assumes.
+            units = {au.const_str(n.args[1]) for st in rb for n in au.walk_local(st)
+                     if isinstance(n, ast.Call) and au.method_name(n) == "datetime64" and len(n.args) > 1}
+            v = kv["np_list"]
+            st_v = next((st for st in au.walk_stmts(body) if any(x is v for x in ast.walk(st))), None)
+            conv = []
+            if st_v is not None:
+                for x in ctx.origins(writer).nodes(v, st_v):
+                    if isinstance(x, ast.Call) and au.method_name(x) in ("astype", "view") and isinstance(x.func, ast.Attribute):
+                        arg = x.args[0] if x.args else au.kwarg(x, "dtype")
+                        txt = (au.const_str(arg) or au.U(arg)) if arg is not None else ""
+                        if not any(txt.replace(" ", "") in ("datetime64[%s]" % u, "M8[%s]" % u, "<M8[%s]" % u) for u in units if u):
+                            conv.append((x, txt))
+            if len(units) != 1:
+                ctx.ob("C11.e", writer, "np_array: unit of dates", None, "the unit the reader rebuilds dates with was not found (%s)" % sorted(map(str, units)))
+            else:
+                ctx.ob("C11.e", writer, "np_array: unit of dates", not conv,
+                       "the array is converted with %s before it is written, but the reader rebuilds dates as np.datetime64(x, %r): for "
+                       "an array of another resolution (datetime64[D], [s], [h]) the numbers are counts of that resolution and the "
+                       "loaded dates land in January 1970 - take periods and capacity intervals silently vanish" % (
+                           au.short(conv[0][0], 50) if conv else "", next(iter(units))), node=(conv[0][0] if conv else v),
+                       ok_detail="written with tolist() of the array itself, read back in %r" % next(iter(units)))
 
     # =========================================================================== Node / Unit / Portfolio: C11.g
     for cname in ("Node", "Unit"):
